@@ -390,7 +390,7 @@ pub fn c05(a: &Analysis<'_>, out: &mut Vec<Violation>) {
     }
     let evs = &a.h.events;
     let tripped = fail_fast_tripped(a);
-    for (name, idxs) in &a.by_scenario {
+    for ((name, _), idxs) in &a.by_scenario {
         let ats: Vec<&crate::model::Attempt> = idxs.iter().map(|i| &a.attempts[*i]).collect();
         let Some(first) = ats.first() else { continue };
         let budget = first.retries.map(|r| r.0 + r.1);
@@ -435,7 +435,11 @@ pub fn c05(a: &Analysis<'_>, out: &mut Vec<Violation>) {
                 out.push(v("C05", "attempts-overlap", format!("{name}: attempt {:?} begins at event {ns} before attempt {:?} finished at {pf}", n.retries, p.retries)));
             }
         }
-        // fresh World per attempt & delay, via the callback log
+        // fresh World per attempt & delay, via the callback log (which names scenarios, not feature
+        // instances: skipped for a scenario whose feature was handed over twice)
+        if a.twin_names.contains(name) {
+            continue;
+        }
         let cbs = scenario_cbs(a, name);
         let mut worlds_per_attempt: Vec<BTreeSet<u64>> = Vec::new();
         for at in &ats {
@@ -585,7 +589,7 @@ fn first_unfilled(a: &Analysis<'_>, only_while_retry_waits: bool) -> Option<Unfi
         }
         let mut retry_waiting: Option<String> = None;
         // retries waiting: conservative — only count those with zero delay known, finished before t_fin
-        for (name, idxs) in &a.by_scenario {
+        for ((name, _), idxs) in &a.by_scenario {
             let sc = &a.st.scenarios[name];
             let Some(last) = idxs.iter().map(|i| &a.attempts[*i]).filter(|t| t.finished.is_some_and(|f| f < q.events)).last() else { continue };
             let next_started = idxs.iter().map(|i| &a.attempts[*i]).any(|t| t.current() == last.current() + 1 && t.started.is_some_and(|s| s < q.events));
@@ -824,11 +828,12 @@ pub fn c08(a: &Analysis<'_>, out: &mut Vec<Violation>) {
                 }
             }
         }
-        let started: BTreeSet<&String> = a.attempts.iter().map(|t| &t.scenario).collect();
-        if started.len() != supplied {
-            out.push(v("C08", "stopped-without-final-failure", format!("fail-fast run without any final failure started {} of {supplied} scenarios", started.len())));
+        // (scenarios, not names: the same feature may have been handed over twice)
+        let started = a.by_scenario.len();
+        if started != supplied {
+            out.push(v("C08", "stopped-without-final-failure", format!("fail-fast run without any final failure started {started} of {supplied} scenarios")));
         }
-        for (name, idxs) in &a.by_scenario {
+        for ((name, _), idxs) in &a.by_scenario {
             let last = &a.attempts[*idxs.last().unwrap()];
             if last.failed(evs) && last.left() > 0 {
                 out.push(v("C08", "retry-cut-without-final-failure", format!("{name}: failed attempt {:?} with retries left was not retried though nothing failed finally", last.retries)));
@@ -858,7 +863,7 @@ pub fn c08(a: &Analysis<'_>, out: &mut Vec<Violation>) {
 pub fn outcome_signature(a: &Analysis<'_>) -> BTreeMap<String, Vec<String>> {
     let evs = &a.h.events;
     let mut m = BTreeMap::new();
-    for (name, idxs) in &a.by_scenario {
+    for ((name, _), idxs) in &a.by_scenario {
         let sig: Vec<String> = idxs
             .iter()
             .map(|i| {
@@ -910,7 +915,9 @@ pub fn c09(a: &Analysis<'_>, out: &mut Vec<Violation>) {
         }
         expected.push((format!("{} {:?}", at.scenario, at.retries), exp.callbacks.clone(), exp.finished_arg.clone()));
         // (v) after hook: exactly once per attempt, with the right reason, Some(world) iff created
-        if a.plan.after_hook {
+        // (the callback log names scenarios, not feature instances: attempts of a scenario whose feature
+        // was handed over twice are covered by the multiset comparison of World trails below only)
+        if a.plan.after_hook && !a.twin_names.contains(&at.scenario) {
             let (Some(s), Some(f)) = (at.started, at.finished) else { continue };
             let (ts, tf) = (evs[s].at, evs[f].at);
             let afters: Vec<&CbEntry> = cb
